@@ -58,3 +58,30 @@ def outcome(fn):
         return fn()
     except Exception as exc:  # noqa: BLE001 - every class is an outcome kind
         return f'err:{type(exc).__name__}'
+
+
+class Hang(Exception):
+    """The implementation exceeded its wall-clock budget (an outcome, `err:Hang`, never a hang of the check)."""
+
+
+def time_limit(seconds=20):
+    """Context manager: raise Hang in the main thread after `seconds` of wall clock."""
+    import contextlib
+    import signal
+
+    @contextlib.contextmanager
+    def manager():
+        def on_alarm(signum, frame):
+            raise Hang()
+        try:
+            previous = signal.signal(signal.SIGALRM, on_alarm)
+        except ValueError:          # not in the main thread: no limit
+            yield
+            return
+        signal.alarm(seconds)
+        try:
+            yield
+        finally:
+            signal.alarm(0)
+            signal.signal(signal.SIGALRM, previous)
+    return manager()
